@@ -1005,6 +1005,26 @@ pub fn handle(op: &str, a: &[&str]) -> Option<String> {
     if op != "wunit" {
         return None;
     }
+    // a panic is answered here (instead of by the worker's catch_unwind) so that the numbers in
+    // the message (`left: Some(DebugInfoOffset(102))`, `the len is 4 but the index is 7`) do not
+    // turn one defect into hundreds of failure signatures
+    match std::panic::catch_unwind(std::panic::AssertUnwindSafe(|| handle_inner(a))) {
+        Ok(r) => r,
+        Err(p) => {
+            let msg = if let Some(s) = p.downcast_ref::<&str>() {
+                s.to_string()
+            } else if let Some(s) = p.downcast_ref::<String>() {
+                s.clone()
+            } else {
+                "?".into()
+            };
+            let norm: String = msg.chars().filter(|c| !c.is_ascii_digit()).map(|c| if c == '\n' { ' ' } else { c }).collect();
+            Some(format!("panic {norm}"))
+        }
+    }
+}
+
+fn handle_inner(a: &[&str]) -> Option<String> {
     let req = parse(a)?;
     let endian = if req.big { RunTimeEndian::Big } else { RunTimeEndian::Little };
     let mut b = build(&req)?;
